@@ -99,6 +99,10 @@ pub enum WKind {
     ZeroAt(usize),
     /// ramp with weight i == pos negated
     NegAt(usize),
+    /// every weight negative: -(1 + i/N)
+    NegRamp,
+    /// no positive weight: -(1 + i/N) with an exact zero at pos
+    NegRampZeroAt(usize),
     /// ramp weights at k evenly spread samples (first and last included), exact zeros everywhere else
     KeepOnly(usize),
 }
@@ -121,6 +125,8 @@ impl WKind {
             WKind::Spread => Some((0..n).map(|i| 10f64.powf(-3.0 + 6.0 * (((i * 7) % n) as f64) / ((n.max(2) - 1) as f64))).collect()),
             WKind::ZeroAt(p) => Some((0..n).map(|i| if i == *p % n { 0.0 } else { ramp(i) }).collect()),
             WKind::NegAt(p) => Some((0..n).map(|i| if i == *p % n { -ramp(i) } else { ramp(i) }).collect()),
+            WKind::NegRamp => Some((0..n).map(|i| -ramp(i)).collect()),
+            WKind::NegRampZeroAt(p) => Some((0..n).map(|i| if i == *p % n { 0.0 } else { -ramp(i) }).collect()),
             WKind::KeepOnly(k) => {
                 let k = (*k).clamp(1, n);
                 let keep: Vec<usize> = (0..k).map(|j| if k == 1 { 0 } else { j * (n - 1) / (k - 1) }).collect();
@@ -135,18 +141,19 @@ impl WKind {
             WKind::ZeroAt(p) => json!({"ZeroAt": p}),
             WKind::NegAt(p) => json!({"NegAt": p}),
             WKind::KeepOnly(p) => json!({"KeepOnly": p}),
+            WKind::NegRampZeroAt(p) => json!({"NegRampZeroAt": p}),
             o => json!(format!("{:?}", o)),
         }
     }
     pub fn from_json(v: &serde_json::Value) -> WKind {
-        for (k, f) in [("ZeroAt", WKind::ZeroAt as fn(usize) -> WKind), ("NegAt", WKind::NegAt), ("KeepOnly", WKind::KeepOnly)] {
+        for (k, f) in [("ZeroAt", WKind::ZeroAt as fn(usize) -> WKind), ("NegAt", WKind::NegAt), ("KeepOnly", WKind::KeepOnly), ("NegRampZeroAt", WKind::NegRampZeroAt)] {
             if let Some(p) = v.get(k) {
                 return f(p.as_u64().unwrap() as usize);
             }
         }
         let s = v.as_str().expect("weight kind");
         // also the Debug form "ZeroAt(2)"
-        for (k, f) in [("ZeroAt(", WKind::ZeroAt as fn(usize) -> WKind), ("NegAt(", WKind::NegAt), ("KeepOnly(", WKind::KeepOnly)] {
+        for (k, f) in [("ZeroAt(", WKind::ZeroAt as fn(usize) -> WKind), ("NegAt(", WKind::NegAt), ("KeepOnly(", WKind::KeepOnly), ("NegRampZeroAt(", WKind::NegRampZeroAt)] {
             if let Some(r) = s.strip_prefix(k) {
                 return f(r.trim_end_matches(')').parse().unwrap());
             }
@@ -161,6 +168,7 @@ impl WKind {
             "Tiny" => WKind::Tiny,
             "Huge" => WKind::Huge,
             "Giant" => WKind::Giant,
+            "NegRamp" => WKind::NegRamp,
             "Spread" => WKind::Spread,
             o => panic!("wkind {}", o),
         }
